@@ -97,7 +97,7 @@ pub fn class_of(p: Point) -> Class {
         DepNextAfterFetch | DepRemoveBetweenLocks | DepAddBetweenLocks | DepKeyAfterRead => {
             Class::Dep
         }
-        WaitAfterFirstCheck | WaitBeforePark => Class::Wait,
+        WaitAfterFirstCheck | WaitBeforePark | NotifyReturn => Class::Wait,
         CacheAfterFetchBasic | CacheAfterFetchStorage | CacheAfterFetchCode => Class::Cache,
         ExecBeforeRun | ExecutionClaimed | RunOnceBeforeCas => Class::ExecStart,
         AbortAfterReason | CancelAfterStore | ExecErrBeforeKey => Class::Abort,
@@ -129,6 +129,7 @@ pub const D_COMMIT_HEAD: u32 = 8; // stagger: hold exec start of k>0 until commi
 pub const D_COORD: u32 = 16; // hold coordinators between publish and notify until a worker spins
 pub const D_WAIT: u32 = 32; // hold a waiter before park until a notify is issued
 pub const D_CACHE: u32 = 64; // hold a cache filler between fetch and insert until a commit is published
+pub const D_AFTER_NOTIFY: u32 = 256; // hold a notifier after notify() until the waiter parks again
 pub const D_FINISH_AT_HEAD: u32 = 128; // hold a finished attempt until the commit boundary reaches its tx
 
 impl Profile {
@@ -177,11 +178,14 @@ pub struct Obs {
     pub points: AtomicU64,
     pub parked: [AtomicU64; 4], // by role: number of threads currently inside park
     pub in_exec: AtomicU64,
+    /// live scheduler threads by role (index 1 worker, 2 finality, 3 commit)
+    pub alive: [AtomicU64; 4],
     fin_examined: Vec<AtomicU64>,
     rewinds: AtomicU64,
     validations_done: AtomicU64,
     commit_published: AtomicUsize,
     notifies: AtomicU64,
+    park_enters: AtomicU64,
     pub holds: AtomicU64,
     pub hold_hits: AtomicU64,
     pub delays: AtomicU64,
@@ -216,11 +220,13 @@ pub fn obs() -> &'static Obs {
         points: AtomicU64::new(0),
         parked: [AtomicU64::new(0), AtomicU64::new(0), AtomicU64::new(0), AtomicU64::new(0)],
         in_exec: AtomicU64::new(0),
+        alive: [AtomicU64::new(0), AtomicU64::new(0), AtomicU64::new(0), AtomicU64::new(0)],
         fin_examined: (0..MAX_TX).map(|_| AtomicU64::new(0)).collect(),
         rewinds: AtomicU64::new(0),
         validations_done: AtomicU64::new(0),
         commit_published: AtomicUsize::new(0),
         notifies: AtomicU64::new(0),
+        park_enters: AtomicU64::new(0),
         holds: AtomicU64::new(0),
         hold_hits: AtomicU64::new(0),
         delays: AtomicU64::new(0),
@@ -282,6 +288,9 @@ impl Obs {
         for p in &self.parked {
             p.store(0, Relaxed);
         }
+        for p in &self.alive {
+            p.store(0, Relaxed);
+        }
         for f in &self.fin_examined {
             f.store(0, Relaxed);
         }
@@ -289,6 +298,7 @@ impl Obs {
         self.validations_done.store(0, Relaxed);
         self.commit_published.store(0, Relaxed);
         self.notifies.store(0, Relaxed);
+        self.park_enters.store(0, Relaxed);
         self.holds.store(0, Relaxed);
         self.hold_hits.store(0, Relaxed);
         self.delays.store(0, Relaxed);
@@ -406,6 +416,12 @@ impl Obs {
                     self.hold(1000, || self.spins.load(Relaxed) > before + 20);
                 }
             }
+            Point::NotifyReturn if bits & D_AFTER_NOTIFY != 0 => {
+                if tl_rand() % 2 == 0 {
+                    let before = self.park_enters.load(Relaxed);
+                    self.hold(2000, || self.park_enters.load(Relaxed) != before);
+                }
+            }
             Point::WaitBeforePark | Point::WaitAfterFirstCheck if bits & D_WAIT != 0 => {
                 if tl_rand() % 2 == 0 {
                     let before = self.notifies.load(Relaxed);
@@ -458,13 +474,21 @@ impl Hooks for Obs {
     fn event(&self, event: Event) {
         match event {
             Event::ThreadStart(role) => {
-                TL_ROLE.with(|r| {
-                    r.set(match role {
-                        Role::Worker => 1,
-                        Role::Finality => 2,
-                        Role::Commit => 3,
-                    })
-                });
+                let code = match role {
+                    Role::Worker => 1,
+                    Role::Finality => 2,
+                    Role::Commit => 3,
+                };
+                TL_ROLE.with(|r| r.set(code));
+                self.alive[code as usize].fetch_add(1, Relaxed);
+            }
+            Event::ThreadEnd(role) => {
+                let code = match role {
+                    Role::Worker => 1,
+                    Role::Finality => 2,
+                    Role::Commit => 3,
+                };
+                self.alive[code].fetch_sub(1, Relaxed);
             }
             Event::FinalityBlocked { idx, .. } | Event::Finality { idx, .. } if idx < MAX_TX => {
                 self.fin_examined[idx].fetch_add(1, Relaxed);
@@ -482,6 +506,7 @@ impl Hooks for Obs {
                 self.notifies.fetch_add(1, Relaxed);
             }
             Event::ParkEnter { .. } => {
+                self.park_enters.fetch_add(1, Relaxed);
                 let role = TL_ROLE.with(|r| r.get()) as usize;
                 self.parked[role & 3].fetch_add(1, Relaxed);
             }
@@ -504,7 +529,7 @@ impl Hooks for Obs {
     }
 
     fn park_timeout(&self, _slot: usize, default: Duration) -> Duration {
-        if self.recording.load(Relaxed) && self.timeout_free.load(Relaxed) && !self.miri {
+        if self.recording.load(Relaxed) && self.timeout_free.load(Relaxed) {
             Duration::from_secs(3600)
         } else {
             default
